@@ -422,3 +422,28 @@ Proof.
   - eapply meets_rows; [exact Hm|]. unfold row_at. apply row_ref. apply cols_ok_wpos; assumption.
   - apply row_direct_at_perm; [assumption | assumption | apply PM; assumption].
 Qed.
+
+(* ------------------------------------------------------------------ what the checker decides, exactly *)
+Lemma Forall2_forallb2 {A B} (p : A -> B -> bool) a b :
+  Forall2 (fun x y => p x y = true) a b -> forallb2 p a b = true.
+Proof. induction 1; simpl; [reflexivity|]. rewrite H, IHForall2. reflexivity. Qed.
+
+Lemma row_meets_iff r t : row_meets r t = true <-> Forall2 Meets r t.
+Proof.
+  unfold row_meets. split; intro H.
+  - apply forallb2_Forall2 in H. induction H; constructor; [apply meets_iff; assumption | assumption].
+  - apply Forall2_forallb2. induction H; constructor; [apply meets_iff; assumption | assumption].
+Qed.
+
+(* stats_check accepts exactly the reports whose every row meets the targets that the model's per-bin
+   function demands for the members taken from the data (sound for the property by stats_check_sound;
+   stricter than the property only where the code copies a datum exactly: single-member bins) *)
+Theorem stats_check_exact mem nbin c rows :
+  stats_check mem nbin c rows = true <->
+  (Z.of_nat (length rows) = nbin
+   /\ forall i, (0 <= i < nbin)%Z -> Forall2 Meets (nth (Z.to_nat i) rows []) (row_at true (qcols_of c) (mem i))).
+Proof.
+  unfold stats_check. cbv zeta. rewrite andb_true_iff, Z.eqb_eq, forallb_forall. split; intros [HL H]; (split; [exact HL|]).
+  - intros i Hi. apply row_meets_iff. apply H. apply zseq_In. lia.
+  - intros i Hi. apply zseq_In in Hi. apply row_meets_iff. apply H. lia.
+Qed.
